@@ -134,6 +134,20 @@ Proof.
   rewrite firstn_app, firstn_all, Nat.sub_diag. cbn [firstn]. apply app_nil_r.
 Qed.
 
+Theorem fill_null_whole_shape ps i a rest :
+  firstn (length ps) (fill_null ps i (a :: rest)) = set_null ps i (amt_neg a) /\
+  skipn (length ps) (fill_null ps i (a :: rest)) =
+  map (fun x => mkPost (p_acct (nth i ps dpost)) (p_kind (nth i ps dpost)) (Some (amt_neg x)) None None true true false) rest.
+Proof. split; [apply written_postings_prefix | apply generated_postings_shape]. Qed.
+
+Theorem scan_null_index_is_null_post ord ps bal i :
+  scan_posts ord ps 0 VVoid None = Ok (bal, Some i) ->
+  (i < length ps)%nat /\ is_null_post (nth i ps dpost) = true.
+Proof.
+  intros H. pose proof (scan_posts_null_index ord _ _ _ _ _ _ H) as [_ [H1 H2]].
+  rewrite Nat.sub_0_r in H1, H2. split; assumption.
+Qed.
+
 (* several commodities left: the amounts handed out are the balance's entries, one each, strictly ascending in
    (base symbol, commodity key) *)
 Theorem several_commodities_sorted_one_each b :
